@@ -213,46 +213,31 @@ class CFG:
         break) are returned by ``loop_exits`` instead."""
         out: List[List[Tuple[int, object]]] = []
         body = self.loop_body_nodes(loop)
+        inner_heads = {n for n in body if n != loop and self.kind[n] in ("LOOP", "FOR")}
 
-        def dfs(n: int, path: List[Tuple[int, object]], seen: Set[int]) -> None:
+        def dfs(n: int, path: List[Tuple[int, object]], seen: Dict[int, int]) -> None:
             if len(out) >= limit:
                 return
             for m, lab in self.succ[n]:
+                # an inner loop head that is re-entered (after one iteration of its body) may only be left
+                if n in inner_heads and seen.get(n, 0) >= 2 and lab is True:
+                    continue
                 if m == loop:
                     out.append(path + [(n, lab)])
                     continue
-                if m in seen or m not in body:
+                if m not in body:
                     continue
-                dfs(m, path + [(n, lab)], seen | {m})
+                cnt = seen.get(m, 0)
+                if cnt >= (2 if m in inner_heads else 1):
+                    continue
+                s2 = dict(seen)
+                s2[m] = cnt + 1
+                dfs(m, path + [(n, lab)], s2)
 
         for m, lab in self.succ[loop]:
             if lab is True:
                 if m == loop:
                     out.append([(loop, True)])
                 else:
-                    dfs(m, [(loop, True)], {m})
-        return out
-
-    def loop_exits(self, loop: int) -> List[Tuple[int, int, object]]:
-        """Edges (n, m, label) leaving the loop body other than the head's False edge."""
-        body = self.loop_body_nodes(loop)
-        # include nodes reachable in the body that do not lead back (return / raise / break)
-        fwd = set()
-        st = [m for m, lab in self.succ[loop] if lab is True]
-        inner_after = set(m for m, lab in self.succ[loop] if lab is False)
-        while st:
-            n = st.pop()
-            if n in fwd or n == loop or n in (self.exit, self.raise_exit):
-                continue
-            fwd.add(n)
-            for m, _ in self.succ[n]:
-                if m not in inner_after or n not in body:
-                    st.append(m)
-        out = []
-        for n in sorted(body | fwd):
-            if n == loop:
-                continue
-            for m, lab in self.succ[n]:
-                if m not in body and m != loop and n in body:
-                    out.append((n, m, lab))
+                    dfs(m, [(loop, True)], {m: 1})
         return out
